@@ -1,6 +1,7 @@
 package main
 
 import (
+	"sync/atomic"
 	"github.com/bits-and-blooms/bloom/v3"
 	"bytes"
 	"context"
@@ -55,6 +56,8 @@ type c19base struct {
 // c19BigBase: a file built from FILE_FORMAT.md whose middle block carries a filter section
 // larger than the reader's 4 MiB chunk target (a token filter sized for 4.2 M entries), so
 // that framing fields can point into, across and past a section that is read on its own.
+var c19OutSeq atomic.Int64 // output files of concurrent re-runs must not collide
+
 func c19BigBase() (*c19base, error) {
 	groups := [][]map[string]any{
 		{{"id": 1, "p": "a", "msg": "alpha one"}, {"id": 2, "p": "a", "msg": "beta two"}, {"id": 3, "p": "a", "msg": "gamma"}},
@@ -630,7 +633,7 @@ func c19Parent(family string, comp string, shard, shards int) CaseResult {
 	if dir == "" {
 		dir = os.TempDir()
 	}
-	outFile := filepath.Join(dir, fmt.Sprintf("c19-%s-%s-%v-%d.json", family, comp, noHash, shard))
+	outFile := filepath.Join(dir, fmt.Sprintf("c19-%s-%s-%v-%d-%d.json", family, comp, noHash, shard, c19OutSeq.Add(1)))
 	stdout := outFile + ".stdout"
 	so, _ := os.Create(stdout)
 	cmd := exec.Command(self, "-mode", "C19child", "-c19family", family, "-c19comp", comp, "-c19shard", fmt.Sprint(shard), "-c19shards", fmt.Sprint(shards), "-c19out", outFile, fmt.Sprintf("-c19nohash=%v", noHash))
